@@ -19,7 +19,9 @@ type reqInfo struct {
 	cmd   string
 	key   int
 	isCtx bool
-	done  chan string // receives the response kind (closed without a value if the process ended)
+	done  chan string   // receives the response kind (closed without a value if the process ended)
+	fin   chan struct{} // closed when the response arrived (or the process ended)
+	pay   int           // identity of the byte-array payload the request carries (0 = none)
 }
 
 // client is the protocol client of one session: it owns the child process,
@@ -46,6 +48,12 @@ type client struct {
 	liveCtx    map[int]bool // context created (response ok) and dispose not yet answered
 	protoErr   string
 	batch      *[]byte // non-nil while sendBatch collects packets
+	// pipelining sessions: every write to stdin is logged with its byte range
+	pipe       bool
+	woff       int                                    // bytes queued for stdin so far
+	inWave     bool                                   // a chunked wave is being written: nobody else may write
+	harnessErr string                                 // the driver broke its own rules (never a verdict)
+	obsFn      func(ri *reqInfo, v interface{}) []int // payload digests a response is made of
 	t0         time.Time
 
 	outq      chan []byte // nil element = close stdin
@@ -145,7 +153,7 @@ func (c *client) sendLocked(cmd string, key int, value map[string]interface{}, i
 	}
 	id := c.nextID
 	c.nextID++
-	ri := &reqInfo{cmd: cmd, key: key, isCtx: isCtx, done: make(chan string, 1)}
+	ri := &reqInfo{cmd: cmd, key: key, isCtx: isCtx, done: make(chan string, 1), fin: make(chan struct{})}
 	c.pending[id] = ri
 	c.inflight++
 	c.nreq++
@@ -156,7 +164,12 @@ func (c *client) sendLocked(cmd string, key int, value map[string]interface{}, i
 	if k == 0 {
 		k = 1 // requests without a key (transform, bogus): the field is not used by the spec
 	}
-	c.events = append(c.events, event{"ev": "send", "id": int(id), "cmd": cmd, "key": k, "ctx": isCtx, "plug": plug, "bad": bad})
+	enc := encodePacket(packet{id: id, isRequest: true, value: value})
+	ev := event{"ev": "send", "id": int(id), "cmd": cmd, "key": k, "ctx": isCtx, "plug": plug, "bad": bad}
+	if c.pipe && c.batch == nil {
+		c.logWrite(len(enc), ev)
+	}
+	c.events = append(c.events, ev)
 	c.logf("-> request %d %s key=%d ctx=%v plug=%v bad=%q", id, cmd, key, isCtx, plug, bad)
 	switch cmd {
 	case "cancel":
@@ -166,11 +179,22 @@ func (c *client) sendLocked(cmd string, key int, value map[string]interface{}, i
 		c.disposed[key] = true
 	}
 	if c.batch != nil {
-		*c.batch = append(*c.batch, encodePacket(packet{id: id, isRequest: true, value: value})...)
+		*c.batch = append(*c.batch, enc...)
 	} else {
-		c.outq <- encodePacket(packet{id: id, isRequest: true, value: value})
+		c.outq <- enc
 	}
 	return ri, true
+}
+
+// logWrite (pipelining sessions, c.mu held): a whole packet of n bytes is
+// about to be queued with one write; the packet event ev gets its byte range
+func (c *client) logWrite(n int, ev event) {
+	if c.inWave {
+		c.harnessErr = "a packet was written while a chunked wave was in progress"
+	}
+	c.events = append(c.events, event{"ev": "write", "from": c.woff, "to": c.woff + n})
+	ev["from"], ev["to"] = c.woff, c.woff+n
+	c.woff += n
 }
 
 // respond answers a request of the service. held (on-start only): the
@@ -192,10 +216,15 @@ func (c *client) respond(id uint32, key int, value map[string]interface{}, isErr
 			wait = time.Until(last.Add(holdFor))
 		}
 		if wait <= 0 {
-			c.events = append(c.events, event{"ev": "send-response", "id": int(id), "err": isErr, "held": holdFor > 0})
+			enc := encodePacket(packet{id: id, isRequest: false, value: value})
+			ev := event{"ev": "send-response", "id": int(id), "err": isErr, "held": holdFor > 0}
+			if c.pipe {
+				c.logWrite(len(enc), ev)
+			}
+			c.events = append(c.events, ev)
 			c.logf("-> response %d err=%v held=%v", id, isErr, holdFor > 0)
 			delete(c.unanswered, id)
-			c.outq <- encodePacket(packet{id: id, isRequest: false, value: value})
+			c.outq <- enc
 			c.mu.Unlock()
 			return
 		}
@@ -276,6 +305,7 @@ func (c *client) reader(stdout io.Reader) {
 		c.dead = true
 		for id, ri := range c.pending {
 			close(ri.done)
+			close(ri.fin)
 			delete(c.pending, id)
 		}
 		c.mu.Unlock()
@@ -317,8 +347,12 @@ func (c *client) reader(stdout io.Reader) {
 			cmd = ri.cmd
 		}
 		kind := classify(cmd, p.value)
-		c.events = append(c.events, event{"ev": "recv-response", "id": int(p.id), "kind": kind})
-		c.logf("<- response %d (%s) %s %s", p.id, cmd, kind, brief(p.value))
+		ev := event{"ev": "recv-response", "id": int(p.id), "kind": kind}
+		if c.obsFn != nil && ri != nil {
+			ev["obs"] = c.obsFn(ri, p.value)
+		}
+		c.events = append(c.events, ev)
+		c.logf("<- response %d (%s) %s obs=%v %s", p.id, cmd, kind, ev["obs"], brief(p.value))
 		if ri != nil {
 			delete(c.pending, p.id)
 			c.inflight--
@@ -333,6 +367,7 @@ func (c *client) reader(stdout io.Reader) {
 				}
 			}
 			ri.done <- kind
+			close(ri.fin)
 		}
 		c.mu.Unlock()
 	}
